@@ -6,6 +6,8 @@ mod c17;
 mod c10;
 mod c07;
 mod c20;
+mod c12;
+mod c16;
 
 use common::*;
 use std::path::PathBuf;
@@ -32,6 +34,8 @@ fn main() {
         "c10" => c10::run(&mut out, tier, seed, replay),
         "c07" => c07::run(&mut out, tier, seed, replay),
         "c20" => c20::run(&mut out, tier, seed, replay),
+        "c12" => c12::run(&mut out, tier, seed, replay),
+        "c16" => c16::run(&mut out, tier, seed, replay),
         _ => {
             eprintln!("unknown property {}", prop);
             std::process::exit(2);
